@@ -264,11 +264,20 @@ impl TryFromHeaderValue for bool {
     }
 }
 
+/// strict decimal: an optional `-` followed by digits only (no `+`, no trailing bytes, no numeric prefix)
+fn parse_decimal<T: atoi::FromRadix10SignedChecked>(bytes: &[u8]) -> Option<T> {
+    let digits = bytes.strip_prefix(b"-").unwrap_or(bytes);
+    if digits.is_empty() || !digits.iter().all(u8::is_ascii_digit) {
+        return None;
+    }
+    atoi::atoi(bytes)
+}
+
 impl TryFromHeaderValue for i32 {
     type Error = ParseHeaderError;
 
     fn try_from_header_value(val: &HeaderValue) -> Result<Self, Self::Error> {
-        atoi::atoi(val.as_bytes()).ok_or(ParseHeaderError::Integer)
+        parse_decimal(val.as_bytes()).ok_or(ParseHeaderError::Integer)
     }
 }
 
@@ -276,7 +285,7 @@ impl TryFromHeaderValue for i64 {
     type Error = ParseHeaderError;
 
     fn try_from_header_value(val: &HeaderValue) -> Result<Self, Self::Error> {
-        atoi::atoi(val.as_bytes()).ok_or(ParseHeaderError::Long)
+        parse_decimal(val.as_bytes()).ok_or(ParseHeaderError::Long)
     }
 }
 
